@@ -697,6 +697,9 @@ pub fn run_case(id: usize, input: &Value) {
         let rule: Rule = serde_json::from_value(rule_json(&rule2)).expect("rule json");
         let mut router = Router::<Rule>::from_config(cfg2.clone());
         router.insert(rule);
+        // half of the cases (decided by the input itself, so that a replay does the same): the router is cached before it is
+        // used, as the proxies do after loading their rules; captures and substitutions must not depend on it
+        if serde_json::to_string(&rule2).map(|t| t.len()).unwrap_or(0) % 2 == 1 { router.cache(None); }
         let remote = rq2["remote"].as_str().map(|s| s.parse().expect("remote address"));
         let mut req = Request::from_config(&cfg2, rq2["url"].as_str().unwrap_or("").to_string(), rq2["host"].as_str().map(|s| s.to_string()),
             rq2["scheme"].as_str().map(|s| s.to_string()), rq2["method"].as_str().map(|s| s.to_string()), remote, None);
